@@ -386,3 +386,123 @@ pub mod hex_ser {
             .collect()
     }
 }
+
+impl WTtl {
+    /// Harness-owned parser of the documented spellings (`forever`, `ephemeral`,
+    /// `time:<ms>`, `head:<n>`), used to decode what xs sends over HTTP.
+    pub fn parse_spelling(s: &str) -> Option<WTtl> {
+        match s {
+            "forever" => Some(WTtl::Forever),
+            "ephemeral" => Some(WTtl::Ephemeral),
+            _ => {
+                if let Some(n) = s.strip_prefix("time:") {
+                    if !n.is_empty() && n.bytes().all(|b| b.is_ascii_digit()) {
+                        return n.parse::<u64>().ok().map(WTtl::Time);
+                    }
+                    None
+                } else if let Some(n) = s.strip_prefix("head:") {
+                    if !n.is_empty() && n.bytes().all(|b| b.is_ascii_digit()) {
+                        return n.parse::<u32>().ok().filter(|k| *k >= 1).map(WTtl::Head);
+                    }
+                    None
+                } else {
+                    None
+                }
+            }
+        }
+    }
+}
+
+/// Decode a frame from the JSON xs emits (HTTP bodies, NDJSON, SSE data),
+/// field by field, without going through `Frame`'s `Deserialize`.
+pub fn wframe_from_json(v: &serde_json::Value) -> Result<WFrame, String> {
+    let o = v.as_object().ok_or("frame JSON is not an object")?;
+    for k in o.keys() {
+        if !["id", "context_id", "topic", "hash", "meta", "ttl"].contains(&k.as_str()) {
+            return Err(format!("unexpected field {k:?} in frame JSON"));
+        }
+    }
+    let s = |k: &str| -> Result<String, String> {
+        o.get(k)
+            .and_then(|x| x.as_str())
+            .map(|x| x.to_string())
+            .ok_or(format!("frame JSON lacks string field {k:?}"))
+    };
+    let id = s("id")?;
+    let ctx = s("context_id")?;
+    if parse_id(&id).is_none() || parse_id(&ctx).is_none() {
+        return Err(format!("frame JSON carries malformed ids {id:?} {ctx:?}"));
+    }
+    let hash = match o.get("hash") {
+        None | Some(serde_json::Value::Null) => None,
+        Some(serde_json::Value::String(h)) => Some(h.clone()),
+        Some(x) => return Err(format!("hash is {x}")),
+    };
+    let meta = match o.get("meta") {
+        None | Some(serde_json::Value::Null) => None,
+        Some(m) => Some(print_json(m)),
+    };
+    let ttl = match o.get("ttl") {
+        None | Some(serde_json::Value::Null) => None,
+        Some(serde_json::Value::String(t)) => {
+            Some(WTtl::parse_spelling(t).ok_or(format!("ttl spelled {t:?}"))?)
+        }
+        Some(x) => return Err(format!("ttl is {x}")),
+    };
+    Ok(WFrame {
+        id,
+        ctx,
+        topic: s("topic")?,
+        hash,
+        meta,
+        ttl,
+    })
+}
+
+/// Encode a frame for `POST /import` the way the docs describe the export format
+/// (one JSON object per frame), built by hand.
+pub fn frame_json_for_import(spec: &FrameSpec) -> String {
+    let mut m = serde_json::Map::new();
+    m.insert("topic".into(), serde_json::Value::String(spec.topic.clone()));
+    m.insert(
+        "context_id".into(),
+        serde_json::Value::String(id_str(spec.ctx)),
+    );
+    m.insert(
+        "id".into(),
+        serde_json::Value::String(id_str(spec.id.unwrap_or(0))),
+    );
+    m.insert(
+        "hash".into(),
+        spec.hash
+            .clone()
+            .map(serde_json::Value::String)
+            .unwrap_or(serde_json::Value::Null),
+    );
+    m.insert(
+        "meta".into(),
+        spec.meta
+            .as_ref()
+            .map(|x| x.to_json())
+            .unwrap_or(serde_json::Value::Null),
+    );
+    m.insert(
+        "ttl".into(),
+        spec.ttl
+            .as_ref()
+            .map(|t| serde_json::Value::String(t.spelling()))
+            .unwrap_or(serde_json::Value::Null),
+    );
+    print_json(&serde_json::Value::Object(m))
+}
+
+/// Parse JSON without serde_json's nesting limit (responses may legitimately
+/// nest deeper than 128 levels; the limit under test is xs's, not the harness's).
+pub fn parse_json_deep(bytes: &[u8]) -> Result<serde_json::Value, String> {
+    use serde::Deserialize;
+    let mut de = serde_json::Deserializer::from_slice(bytes);
+    de.disable_recursion_limit();
+    let v = serde_json::Value::deserialize(&mut de).map_err(|e| e.to_string())?;
+    de.end().map_err(|e| e.to_string())?;
+    Ok(v)
+}
